@@ -181,7 +181,7 @@ func init() {
 	register(&Rule{Name: "R-FRESH-BINDER", Min: 8,
 		Doc: "every insertion of a binder into a typing context is dominated by a failed existence test of the same identifier in the same context (or the context it was copied from); the cut's binder is covered by the reuse dichotomy instead",
 		Run: runFreshBinder})
-	register(&Rule{Name: "R-CONSUME-DELETES", Min: 2,
+	register(&Rule{Name: "R-CONSUME-DELETES", Min: 1,
 		Doc: "consuming a name from the context deletes it on the path that returns its type",
 		Run: runConsumeDeletes})
 	register(&Rule{Name: "R-AXIOM-EMPTY", Min: 7,
@@ -236,24 +236,20 @@ func runFreshBinder(p *Program, r *RuleResult) {
 				found := false
 				var tests []ssa.Instruction
 				for f := range view.FactsAt(b) {
-					if f.k != factFalse {
-						continue
-					}
-					switch t := f.v.(type) {
-					case *ssa.Call:
-						sc := t.Common().StaticCallee()
-						if sc == nil || len(t.Common().Args) != 2 || !isCtxType(t.Common().Args[0].Type()) {
-							continue
-						}
-						if p.isAnyExistenceTest(sc) {
+					if c, isCall := f.v.(*ssa.Call); isCall && len(c.Common().Args) == 2 && isCtxType(c.Common().Args[0].Type()) {
+						if none, suffix, isVF := p.variadicFreshness(c.Common().StaticCallee()); isVF {
+							if f.k != none {
+								continue
+							}
 							// keys passed as a variadic list: stores into the backing array
+							t := c
 							tr, _ := ctxRoot(t.Common().Args[0])
 							if sl, ok := t.Common().Args[1].(*ssa.Slice); ok && tr == root {
 								if al, ok := sl.X.(*ssa.Alloc); ok && al.Referrers() != nil {
 									for _, u := range *al.Referrers() {
 										if ia, ok := u.(*ssa.IndexAddr); ok {
 											for _, st := range storesTo(ia) {
-												if accessPath(st.Val) == key {
+												if accessPath(st.Val)+suffix == key {
 													found = true
 													tests = append(tests, t)
 												}
@@ -262,6 +258,16 @@ func runFreshBinder(p *Program, r *RuleResult) {
 									}
 								}
 							}
+							continue
+						}
+					}
+					if f.k != factFalse {
+						continue
+					}
+					switch t := f.v.(type) {
+					case *ssa.Call:
+						sc := t.Common().StaticCallee()
+						if sc == nil || len(t.Common().Args) != 2 || !isCtxType(t.Common().Args[0].Type()) {
 							continue
 						}
 						if !p.isExistenceTest(sc) {
@@ -429,21 +435,31 @@ func (p *Program) isExistenceTest(fn *ssa.Function) bool {
 	return true
 }
 
-// isAnyExistenceTest: func(ctx, keys ...string) bool that returns true as soon as one key is
-// in the context (an existence test applied to every element of the variadic parameter) and
-// false otherwise; a false result therefore says that none of the keys exists.
-func (p *Program) isAnyExistenceTest(fn *ssa.Function) bool {
+// variadicFreshness recognises a helper func(ctx, xs ...T) bool that applies the existence
+// test to every element of its variadic parameter (the element itself when T is string, its
+// identifier when T is a name) and answers with one constant as soon as an element exists and
+// with the opposite constant only after the whole list was tested. It returns the fact kind of
+// the result that says "none of them exists" and the access-path suffix of the key.
+func (p *Program) variadicFreshness(fn *ssa.Function) (none factKind, suffix string, ok bool) {
 	if fn == nil || fn.Blocks == nil || len(fn.Params) != 2 || !isCtxType(fn.Params[0].Type()) || !fn.Signature.Variadic() {
-		return false
+		return 0, "", false
 	}
-	if bt, ok := fn.Signature.Results().At(0).Type().Underlying().(*types.Basic); fn.Signature.Results().Len() != 1 || !ok || bt.Kind() != types.Bool {
-		return false
+	if bt, isB := fn.Signature.Results().At(0).Type().Underlying().(*types.Basic); fn.Signature.Results().Len() != 1 || !isB || bt.Kind() != types.Bool {
+		return 0, "", false
 	}
 	view := p.View(fn)
+	elemOf := func(v ssa.Value) bool {
+		ld, isLd := v.(*ssa.UnOp)
+		if !isLd {
+			return false
+		}
+		ia, isIA := ld.X.(*ssa.IndexAddr)
+		return isIA && ia.X == ssa.Value(fn.Params[1])
+	}
 	var test *ssa.Call
 	for _, c := range p.callsIn(fn) {
-		call, ok := c.(*ssa.Call)
-		if !ok {
+		call, isCall := c.(*ssa.Call)
+		if !isCall {
 			continue
 		}
 		if _, isBuiltin := call.Common().Value.(*ssa.Builtin); isBuiltin {
@@ -451,60 +467,125 @@ func (p *Program) isAnyExistenceTest(fn *ssa.Function) bool {
 		}
 		sc := call.Common().StaticCallee()
 		if sc == nil || !p.isExistenceTest(sc) || call.Common().Args[0] != ssa.Value(fn.Params[0]) {
-			return false // calls something else
+			return 0, "", false // calls something else
 		}
-		// the key is an element of the variadic parameter
-		ld, ok := call.Common().Args[1].(*ssa.UnOp)
-		if !ok {
-			return false
+		// the key is an element of the variadic parameter, or the identifier of one
+		key := call.Common().Args[1]
+		switch k := key.(type) {
+		case *ssa.Field:
+			if _, fname, okF := fieldNameOf(k); !okF || fname != "Ident" || !elemOf(k.X) {
+				return 0, "", false
+			}
+			suffix = ".Ident"
+		case *ssa.UnOp:
+			if fa, isFA := k.X.(*ssa.FieldAddr); isFA {
+				_, fname, okF := fieldNameOf(fa)
+				fromElem := false
+				switch base := fa.X.(type) {
+				case *ssa.IndexAddr:
+					fromElem = base.X == ssa.Value(fn.Params[1])
+				case *ssa.Alloc:
+					// the range variable, spilled: every store into it copies an element
+					sts := storesTo(base)
+					fromElem = len(sts) > 0
+					for _, st := range sts {
+						if !elemOf(st.Val) {
+							fromElem = false
+						}
+					}
+				}
+				if !okF || fname != "Ident" || !fromElem {
+					return 0, "", false
+				}
+				suffix = ".Ident"
+			} else if !elemOf(k) {
+				return 0, "", false
+			}
+		default:
+			return 0, "", false
 		}
-		ia, ok := ld.X.(*ssa.IndexAddr)
-		if !ok || ia.X != ssa.Value(fn.Params[1]) {
-			return false
+		if test != nil {
+			return 0, "", false
 		}
 		test = call
 	}
 	if test == nil {
-		return false
+		return 0, "", false
 	}
-	inLoop := false
+	var loop *Loop
 	for _, l := range view.Loops() {
 		if l.Body[test.Block()] && skipsIteration(p, view, test) == "" {
-			inLoop = true
+			loop = l
 		}
 	}
-	if !inLoop {
-		return false
+	if loop == nil {
+		return 0, "", false
 	}
-	// returns: true where the test was true, false only after the loop
-	for _, b := range view.Blocks() {
-		ins := view.Instrs(b)
-		ret, ok := ins[len(ins)-1].(*ssa.Return)
-		if !ok {
+	// the loop is left early only where an element was found
+	for b := range loop.Body {
+		if b == loop.Header {
 			continue
 		}
-		c, ok := ret.Results[0].(*ssa.Const)
-		if !ok || c.Value == nil {
-			return false
-		}
-		if c.Value.String() == "false" && view.holdsAt(b, test, factTrue) {
-			return false
+		for _, su := range view.Succs(b) {
+			if !loop.Body[su] && !view.holdsAt(su, test, factTrue) {
+				return 0, "", false
+			}
 		}
 	}
-	return true
+	// returns: one constant where the test was true, the opposite one only after the loop
+	var found, other *bool
+	for _, b := range view.Blocks() {
+		ins := view.Instrs(b)
+		ret, isRet := ins[len(ins)-1].(*ssa.Return)
+		if !isRet {
+			continue
+		}
+		c, isC := ret.Results[0].(*ssa.Const)
+		if !isC || c.Value == nil {
+			return 0, "", false
+		}
+		val := c.Value.String() == "true"
+		slot := &other
+		if view.holdsAt(b, test, factTrue) {
+			slot = &found
+		} else if loop.Body[b] {
+			return 0, "", false
+		}
+		if *slot == nil {
+			*slot = &val
+		} else if **slot != val {
+			return 0, "", false
+		}
+	}
+	if found == nil || other == nil || *found == *other {
+		return 0, "", false
+	}
+	if *other {
+		return factTrue, suffix, true
+	}
+	return factFalse, suffix, true
 }
 
 // reuseLookup: the comma-ok lookup of `key` in the incoming context at the head of the method.
-func (p *Program) reuseLookup(m *tcMethod, key string) *ssa.Extract {
+// Either the ok of the lookup itself or the result of the existence-test helper on the same
+// context and key.
+func (p *Program) reuseLookup(m *tcMethod, key string) ssa.Value {
 	for _, b := range m.Fn.Blocks {
 		for _, in := range b.Instrs {
-			ex, ok := in.(*ssa.Extract)
-			if !ok || ex.Index != 1 {
-				continue
-			}
-			lk, ok := ex.Tuple.(*ssa.Lookup)
-			if ok && lk.CommaOk && lk.X == ssa.Value(m.Gamma) && accessPath(lk.Index) == key {
-				return ex
+			switch x := in.(type) {
+			case *ssa.Extract:
+				if x.Index != 1 {
+					continue
+				}
+				lk, ok := x.Tuple.(*ssa.Lookup)
+				if ok && lk.CommaOk && lk.X == ssa.Value(m.Gamma) && accessPath(lk.Index) == key {
+					return x
+				}
+			case *ssa.Call:
+				sc := x.Common().StaticCallee()
+				if sc != nil && p.isExistenceTest(sc) && len(x.Common().Args) == 2 && x.Common().Args[0] == ssa.Value(m.Gamma) && accessPath(x.Common().Args[1]) == key {
+					return x
+				}
 			}
 		}
 	}
@@ -682,12 +763,12 @@ func runAxiomEmpty(p *Program, r *RuleResult) {
 		bad := ""
 		for _, ret := range exits {
 			ok := false
-			for f := range view.FactsAt(ret.Block()) {
+			for f := range view.successFactsAt(ret) {
 				if f.k != factNil {
 					continue
 				}
 				c, isCall := f.v.(*ssa.Call)
-				if isCall && c.Common().StaticCallee() == lin && origin(c.Common().Args[0]) == ssa.Value(m.Gamma) {
+				if isCall && c.Common().StaticCallee() == lin && len(c.Common().Args) > 0 && origin(c.Common().Args[0]) == ssa.Value(m.Gamma) {
 					ok = true
 				}
 			}
@@ -1159,7 +1240,7 @@ func runCutSplit(p *Program, r *RuleResult) {
 // left on a name (polarity of forwards, duplication, dropping); every name the typing rule
 // takes out of the context gets that type written into the form itself.
 func init() {
-	register(&Rule{Name: "R-TYPE-RECORDED", Min: 20,
+	register(&Rule{Name: "R-TYPE-RECORDED", Min: 15,
 		Doc: "for every call of the consume function in a typing rule whose name argument is a name stored in the form (a field, or an element of a name-slice field): every path from that call to a success exit of the rule passes a store to the Type field of that same name inside the form (a store into a local copy of the name does not count)",
 		Run: runTypeRecorded})
 }
